@@ -40,6 +40,31 @@ CHECKS["C01"] = {
     "note": "No value oracle (that is C03). Exhaustive only within the EncGen bounds; arbitrary bit patterns are sampled (seeded). Messages containing a list of > 2^20 elements are not run with the 2^40 budget (work legitimately proportional to T).",
 }
 
+CHECKS["C04"] = {
+    "engine": "tlc",
+    "level": "model_checking",
+    "design_ref": "DESIGN.md section 4 C04",
+    "technique": "TLA+ abstract builder semantics (BuilderAbs) enumerated/simulated by TLC; operation sequences replayed on the real builder API in 10 arena configurations; expected value after every step computed by TLC and compared with accessor read-back, 13 serialisation round trips, and TLC's own decoding of the raw bytes (EncTrace)",
+    "text": "BuilderAbs states what each builder operation means on an abstract object store; TLC enumerates all sequences of <= 2-3 operations over small alphabets and simulates 10-12 operation sequences. Each is replayed in scripted arenas (single/multi segment, capacities 1-6 words, 0xAA-filled spare capacity, with and without segment reuse) so near, far and double-far pointers all occur. After every step the message must read back as the spec's value; at the end also through Marshal/Unmarshal, packed, Encoder/Decoder with chunk sizes 1,7,8,9,4096 and buffer reuse.",
+    "note": "Bounded by the generator constants (struct sizes <= 3 words, lists <= 65 elements, <= 12 operations, <= 10 handles). Trusted: TLC, BuilderAbs as a reading of the documented API (same-message SetPtr aliases, list members are copied).",
+}
+CHECKS["C05"] = {
+    "engine": "tlc",
+    "level": "model_checking",
+    "design_ref": "DESIGN.md section 4 C05",
+    "technique": "code->spec trace validation: the raw segment bytes after every builder step and the Marshal output are decoded by TLC with the TLA+ encoding spec (CapnpSem, FrameCore): strict WellFormed + Value = written value",
+    "text": "TLC is the independent decoder: for every dump (same behaviours/arenas as C04) it checks that every reachable pointer is defined by the spec (bounds, landing pads, composite word count = n x element size), reachable extents are pairwise disjoint, sub-word list padding is zero, the stream framing describes exactly the segments (count, sizes, padding) and the decoded value equals the value BuilderAbs says was written.",
+    "note": "Strictness is the encoding spec's, not the library reader's. Object sharing created by same-message SetPtr is one extent, not an overlap.",
+}
+CHECKS["C16"] = {
+    "engine": "tlc",
+    "level": "model_checking",
+    "design_ref": "DESIGN.md section 4 C16",
+    "technique": "BuilderAbs with 2-3 messages and the copying operations; TLC gives the value and capability table of every message after every step; replay on the real library + TLC decoding of the bytes; instrumented capabilities checked at Reset",
+    "text": "Copy semantics (deep copy across messages and for struct-list members, truncation / zero extension into a struct of another size, surplus pointers nulled, capability pointers re-homed into a fresh table entry of the destination) are actions of BuilderAbs; independence is checked because later operations mutate one side and both messages' expected values are compared after every step; capability reference ownership is checked by resetting the messages one by one and counting Shutdown calls of instrumented hooks.",
+    "note": "Bounds as C04. Capability identity is observed through ClientHook.Brand.",
+}
+
 NOT_APPLICABLE = {
     "C%02d" % i: "check not built yet in this session (planned, see DESIGN.md section 9); not claimed until its TLA+ spec and conformance harness exist" for i in range(1, 21)
 }
